@@ -282,6 +282,25 @@ def check_zx_dagger(ctx, diagram, denoted, origin):
                kinds=lambda: sorted({zi.kind_of(b) for b in diagram.boxes}),
                denoted_by_dagger=lambda: small(denoted_dag),
                adjoint_of_denoted=lambda: small(zi.adjoint(denoted)))
+    if not ok:
+        return
+    # the dagger fed back in: [::-1] agrees, and the double dagger denotes the
+    # original again
+    for how, fn in (("slice [::-1]", lambda: diagram[::-1]),
+                    ("dagger of the dagger", dag.dagger)):
+        again = library(ctx, "zx " + how, fn)
+        if again is None:
+            continue
+        try:
+            value = zi.evaluate(again)
+        except zi.Unsupported:
+            continue
+        want = zi.adjoint(denoted) if how.startswith("slice") else denoted
+        ctx.expect("zx-dagger-is-conjugate-transpose",
+                   value.shape == want.shape and bool(numpy.allclose(
+                       value, want, rtol=TOL, atol=TOL)), mechanism=None,
+                   origin=origin, how=how, diagram=safe_repr(diagram, 800),
+                   result=lambda: safe_repr(again, 800))
 
 
 # --------------------------------------------------------------------------
@@ -418,6 +437,9 @@ def rand_zx_box(rng, width):
         if width - n_in + n_out > 5:
             continue
         cls = zx.Z if rng.random() < .5 else zx.X
+        if rng.random() < .3:
+            # the generator is itself obtained as the dagger of a bare spider
+            return cls(n_out, n_in, rand_phase(rng)).dagger(), n_in, n_out
         return cls(n_in, n_out, rand_phase(rng)), n_in, n_out
     return zx.scalar(1j), 0, 0
 
